@@ -282,7 +282,10 @@ pub fn check_case(spec: &SysSpec, named: bool, pass: Pass, sim_steps: usize) -> 
 
     // ---- lock-step reference simulation (only when something changed: identical systems have
     //      identical executions by construction of the reference)
-    if info.changed || !removed.is_empty() {
+    // (systems whose init expressions read inputs have no reference initial-state set: the
+    //  function-level comparison above is the whole oracle for them)
+    let init_reads_input = spec.states.iter().any(|st| st.init.as_ref().map(|t| t.symbols().iter().any(|sy| spec.inputs.contains(sy))).unwrap_or(false));
+    if (info.changed || !removed.is_empty()) && !init_reads_input {
         if let Some(f) = lockstep(&ctx, &before, &after, &removed, pass, sim_steps, &mut info) {
             return (Some(f), info);
         }
@@ -426,6 +429,33 @@ pub fn rename_variants(spec: &SysSpec, full: bool) -> Vec<SysSpec> {
     out
 }
 
+/// States whose init expression reads an input, with and without a next function (the btor2
+/// reader demotes a state without init and next to an input named `_state_<n>`, so `init s = _state_0`
+/// is what a parsed design looks like). Only the function-level oracle applies to these.
+pub fn init_from_input_systems() -> Vec<SysSpec> {
+    let mut out = vec![];
+    let i = || T::sym("f2", Ty::Bv(2));
+    let j = || T::sym("g2", Ty::Bv(2));
+    let s = |n: &str| T::sym(n, Ty::Bv(2));
+    for (k, next_s) in [None, Some(T::bin(Bin::Add, s("s2"), T::lit(2, 1))), Some(s("s2"))].into_iter().enumerate() {
+        for (m, init_t) in [i(), T::bin(Bin::Add, i(), j()), T::bin(Bin::Xor, j(), T::lit(2, 3))].into_iter().enumerate() {
+            out.push(SysSpec {
+                name: format!("initin{k}{m}"),
+                inputs: vec![("f2".into(), Ty::Bv(2)), ("g2".into(), Ty::Bv(2))],
+                states: vec![
+                    StateSpec { name: "s2".into(), ty: Ty::Bv(2), init: Some(i()), next: next_s.clone() },
+                    StateSpec { name: "t2".into(), ty: Ty::Bv(2), init: Some(init_t), next: Some(T::bin(Bin::Add, s("t2"), j())) },
+                    StateSpec { name: "u2".into(), ty: Ty::Bv(2), init: Some(T::bin(Bin::And, s("s2"), j())), next: None },
+                ],
+                outputs: vec![("o".into(), T::bin(Bin::Add, s("s2"), s("t2")))],
+                bads: vec![T::bin(Bin::Eq, s("u2"), i())],
+                constraints: vec![],
+            });
+        }
+    }
+    out
+}
+
 pub fn meta(rep: &mut Report) {
     rep.rule = "systems = S1 (full pools incl. div/rem) + S3(3) of skeletons K1..K7 (thorough: S1 + S3(4) + S2(32) + S3(5) of K1/K3/K4/K7), hand-built swap/delay/count2/delayin and an array-input system; each with and without names on every intermediate node. simplify_expressions runs on every system; replace_anonymous_inputs_with_zero runs on every renaming variant (0, 1 or 2 of the inputs/states renamed to _input_<n> / _state_<n>, all prefix combinations; in the quick tier the S3 systems get the reduced set: unrenamed, and each single symbol renamed). Oracle: input/state lists (minus the anonymous inputs), no init/next dropped or added, root counts and output names, type of every changed function, equality of every changed function with the original under ALL valuations of states and inputs (removed inputs = 0), no removed or undeclared symbol in the result, surviving names label equivalent functions, lock-step reference simulation over all input sequences of length 3 (quick) / 4 (thorough) from all initial states. evaluations = transformation calls; distinct_nontrivial = distinct (system, naming, pass) cases in which at least one init/next/output/bad/constraint expression changed".into();
     rep.assumptions = vec![
@@ -466,7 +496,8 @@ fn report(c: &Case, f: &Fail, order: u64, rep: &Report) {
 pub fn run(opts: &Opts, rep: &Report) {
     let tier = tier_of(opts);
     let budget = Budget::new(opts.budget_s);
-    let specs = system_family(tier, true);
+    let mut specs = init_from_input_systems();
+    specs.extend(system_family(tier, true));
     rep.add("systems", specs.len() as u64);
     let steps = if tier.is_thorough() { SIM_STEPS_THOROUGH } else { SIM_STEPS_QUICK };
     rep.note("lockstep_input_sequence_length", json!(steps));
